@@ -1,13 +1,13 @@
-From Coq Require Import List NArith ZArith Bool Sorted.
+From Coq Require Import List NArith ZArith Bool Sorted Permutation.
 From V.gen Require Consts.
 From V.C10 Require Import Model Proofs.
 Import ListNotations.
 From V.C10 Require Import Properties.
 Check (C10_bound :
-  forall c k h p s, get p (final c k h) = Some s ->
+  forall c k h p s, get p (bk (final c k h)) = Some s ->
     (length s <= cap k)%nat /\ NoDup (keys s)).
 Check (C10_bound_default :
-  forall c h p s, get p (final c default_scores h) = Some s ->
+  forall c h p s, get p (bk (final c default_scores h)) = Some s ->
     (N.of_nat (length s) <= Consts.MAX_ADDRESSES)%N).
 Check (C10_accept_implies_dialable :
   forall c a, supported c a = true ->
@@ -16,16 +16,22 @@ Check (C10_accept_implies_dialable :
       exists ho port, parse (route c a) a = Some (ho, port, Some q) /\
                       host_unspecified ho = false).
 Check (C10_offer_filter :
-  forall c peer l a, In a (accepted c peer l) ->
-    In a l /\ supported c a = true /\ is_local c a = false /\ last a (Other 0) = P2p peer).
+  forall c ls peer l a, In a (accepted c ls peer l) ->
+    In a l /\ supported c a = true /\ is_local c ls a = false /\ last a (Other 0) = P2p peer).
+Check (C10_listen_monotone :
+  forall c l1 l2 a, incl l1 l2 -> is_local c l2 a = false -> is_local c l1 a = false).
 Check (C10_remembered_acceptable :
-  forall c k h p s a z,
-    Forall (op_wf (acceptable c)) h ->
-    get p (final c k h) = Some s -> In (a, z) s ->
-    (supported c a = true /\ is_local c a = false /\ last a (Other 0) = P2p p) /\
+  forall c k L0 h p s a z,
+    Forall (op_wf (acceptable c L0)) h ->
+    get p (bk (fst (run c k (mkState [] L0 0) h))) = Some s -> In (a, z) s ->
+    (supported c a = true /\ is_local c L0 a = false /\ last a (Other 0) = P2p p) /\
     (enabled c (route c a) = true /\
      exists ho port, parse (route c a) a = Some (ho, port, Some p) /\
                      host_unspecified ho = false)).
+Check (C10_step_preserves :
+  forall c k L0 st o,
+    StInv k L0 (acceptable c L0) st -> op_wf (acceptable c L0) o ->
+    StInv k L0 (acceptable c L0) (fst (step c k st o))).
 Check (C10_evict_min :
   forall k s a sc v w,
   NoDup (keys s) ->
@@ -74,6 +80,39 @@ Check (C10_dial_order_validator_sound :
   (forall b y, In (b, y) s -> ~ In b (map fst obs) -> forall a z, In (a, z) obs -> (y <= z)%Z)).
 Check (C10_dial_order_validator_complete :
   forall limit s, NoDup (keys s) -> addresses_ok limit s (addresses limit s) = true).
+Check (C10_dial_tries :
+  forall c k st peer outcome tcp ws t w st',
+  step c k st (ODial peer outcome tcp ws) = (st', RDial (DTried t w)) ->
+  let s := get_or_empty peer (bk st) in
+  exists limit,
+    free_capacity c st (length s) = Some limit /\
+    peer <> local_peer c /\
+    t = with_scores s tcp /\ w = with_scores s ws /\
+    addresses_ok limit s (merge_desc t w) = true /\
+    Permutation (merge_desc t w) (t ++ w) /\
+    Forall (fun a => In a (keys s) /\ names peer a = true /\ route c a = TTcp /\ enabled c TTcp = true) tcp /\
+    Forall (fun a => In a (keys s) /\ names peer a = true /\ route c a = TWs /\ enabled c TWs = true) ws /\
+    st' = set_bk st (put peer (dial_outcome k s peer outcome tcp ws) (bk st))).
+Check (C10_free_capacity :
+  forall c st n limit,
+  free_capacity c st n = Some limit ->
+  match max_out c with
+  | Some m => (held st < m)%nat /\ limit = (m - held st)%nat
+  | None => limit = n
+  end).
+Check (C10_dial_all_fail :
+  forall k s peer tcp ws b,
+  NoDup (keys s) -> (forall a, In a (tcp ++ ws) -> In a (keys s)) -> sc_failure k <> 0%Z ->
+  find b (dial_outcome k s peer 0 tcp ws) =
+    if existsb (maddr_eqb b) (tcp ++ ws) then Some (sc_failure k) else find b s).
+Check (C10_dial_success :
+  forall k s peer l j a b,
+  NoDup (keys s) -> (forall x, In x l -> In x (keys s)) ->
+  nth_error l j = Some a -> names peer a = true ->
+  sc_failure k <> 0%Z -> sc_established k <> 0%Z ->
+  find b (succeed_at k s peer l j) =
+    if maddr_eqb b a then Some (sc_established k)
+    else if existsb (maddr_eqb b) (firstn j l) then Some (sc_failure k) else find b s).
 Check (C10_choice_resolvable :
   forall k s a sc, NoDup (keys s) -> (1 <= cap k)%nat ->
   snd (insert k s a sc (pick_min s)) <> BadChoice).
